@@ -129,6 +129,11 @@ impl SenderCache {
                     // a slot as an OTP node would pick it (by hash) or any other: both conform
                     let nseg = if self.all_segments { 8 } else { 6 };
                     let mut slot = ((r.below(nseg)) as u8, r.below(256) as u8);
+                    if r.chance(1, 6) {
+                        // the corners of the table: first and last segment in use, first and last indices
+                        slot = (*r.pick(&[0u8, (nseg - 1) as u8]), *r.pick(&[0u8, 1, 247, 254, 255]));
+                        stats.push("probe.c14.corner_slot");
+                    }
                     if r.chance(1, 3) && !self.slots.is_empty() {
                         // deliberately overwrite a live entry
                         let mut keys: Vec<(u8, u8)> = self.slots.keys().copied().collect();
